@@ -73,7 +73,7 @@ class Skein(object):
         # leaf level (0):
         Mi = []
         Ts = Tweak(TreeLevel=1,Type='msg')
-        for i in range(0,len(M),Nl):
+        for i in range(0,max(len(M),1),Nl):
             m = M[i:i+Nl]
             Mi.append(UBI(Threefish,self.G,Ts)(m))
             # spec for treehash is different from update
